@@ -293,3 +293,31 @@ def check_terminal_gc(ctx, F, rule="E-FREELIST.term"):
                                 "every path: the freed terminal slots can never be reused"))
     ctx.floor(rule, "dynamic terminal managers with a gc", n, 1)
     return n
+
+
+def check_oom_last_resort(ctx, F, rule="E-FREELIST.lastresort"):
+    """`get_slot_from_shared` may answer `Err(OutOfMemory)` only after it has looked at the shared free lists: the
+    slot array's high-water mark (`allocated`) never decreases, slots freed by a collection come back through
+    `shared.next_free` only.  Every `Err` exit must therefore be dominated by the `pop` on the shared list of free
+    lists; otherwise, once the array has been exhausted, allocation fails for good although gc freed space
+    (the property's "once space has been freed the same operation succeeds")."""
+    n = 0
+    for fid, m in sorted(F.mir.items()):
+        if not (fid.startswith("oxidd_manager_index::manager::") and fid.endswith("::get_slot_from_shared")):
+            continue
+        B = cfg.Body(m)
+        blocks = [i for i in sorted(B.reach) if not m["blocks"][i]["c"]]
+        errs = [i for i in blocks for s in m["blocks"][i]["s"]
+                if s.get("lhs") == 0 and (s.get("rv") or {}).get("k") == "aggr" and (s.get("rv") or {}).get("variant") == "Err"]
+        pops = [i for i, t in B.calls() if re.search(r"Vec::<T, A>::pop$", cfg.callee_name(t) or "")]
+        n += 1
+        if not ctx.anchor(rule, "get_slot_from_shared: Err exits and the pop on the shared free lists", bool(errs) and bool(pops)):
+            continue
+        bad = [i for i in errs if not any(B.dominates(p, i) for p in pops)]
+        ctx.ob(rule, rule + ":get_slot_from_shared", not bad,
+               "%s (%s): %s" % (F.nice(fid), F.where(fid),
+                                "every OutOfMemory exit (%d) is reached only after the shared free lists were consulted" % len(errs)
+                                if not bad else
+                                "%d of %d OutOfMemory exit(s) can be reached without consulting the shared free lists: after the "
+                                "slot array has been exhausted once, slots freed by gc are never found again" % (len(bad), len(errs))))
+    return n
